@@ -556,3 +556,57 @@ char* ordered_free_memory_list::end_node() noexcept
     void* mem = &end_proxy_;
     return static_cast<char*>(mem);
 }
+
+#ifdef FOONATHAN_MEMORY_VERIF
+const char* free_memory_list::verif_walk(std::size_t& reachable) const noexcept
+{
+    reachable = 0u;
+    for (auto cur = first_; cur; cur = list_get_next(cur))
+    {
+        if (++reachable > capacity_)
+            return "more nodes reachable than capacity() (cycle or stale node)";
+    }
+    return reachable == capacity_ ? nullptr : "fewer nodes reachable than capacity()";
+}
+
+const char* ordered_free_memory_list::verif_walk(std::size_t& reachable) const noexcept
+{
+    reachable   = 0u;
+    auto self   = const_cast<ordered_free_memory_list*>(this);
+    auto begin  = self->begin_node();
+    auto end    = self->end_node();
+    auto prev   = begin;
+    auto cur    = xor_list_get_other(begin, nullptr);
+    bool seen_last_dealloc = last_dealloc_ == end, seen_last_dealloc_prev = last_dealloc_prev_ == begin;
+    const char* error = nullptr;
+    char* last_real = nullptr;
+    while (cur != end)
+    {
+        if (!cur)
+            return "list runs into a null link before reaching the end node";
+        if (++reachable > capacity_)
+            return "more nodes reachable than capacity() (cycle or stale node)";
+        if (last_real && !less(last_real, cur))
+            error = "nodes are not in ascending address order";
+        if (cur == last_dealloc_)
+        {
+            seen_last_dealloc = true;
+            if (prev != last_dealloc_prev_)
+                error = "last_dealloc_prev_ is not the predecessor of last_dealloc_";
+        }
+        if (cur == last_dealloc_prev_)
+            seen_last_dealloc_prev = true;
+        last_real = cur;
+        xor_list_iter_next(cur, prev);
+    }
+    if (last_dealloc_ == end && prev != last_dealloc_prev_)
+        error = "last_dealloc_prev_ is not the predecessor of last_dealloc_";
+    if (reachable != capacity_)
+        return "fewer nodes reachable than capacity()";
+    if (xor_list_get_other(end, nullptr) != prev)
+        return "end node does not link back to the last node";
+    if (!seen_last_dealloc || !seen_last_dealloc_prev)
+        return "cached last deallocation position is not part of the list";
+    return error;
+}
+#endif
